@@ -34,6 +34,8 @@ FINDING_TEXT = {
     "kf_dotted_name": "a dotted name A.B in a stub annotation of a positional-or-keyword parameter or return is rewritten to B "
                       "and `from <A> import B` is added (libcst _TypeCollectorDequalifier.leave_Attribute)",
     "kf_nested_class_stub": "stub for a method of a nested class renders `class Outer.Inner:`; apply fails with HandlerError",
+    "kf_confine_reimports": "with --pep_563 and --ignore-existing-annotations a second application re-adds at module level the imports "
+                            "the first one confined under `if TYPE_CHECKING:` (AddImportsVisitor only sees top-of-module imports)",
     "kf_confine_drops_source_import": "with --pep_563 a source import item is deleted / moved (C16's defects seen through C15's erase invariant)",
 }
 
@@ -60,6 +62,19 @@ def all_items(text):
         if isinstance(st, (ast.Import, ast.ImportFrom)):
             out += apply_abs.stmt(st)
     return out
+
+
+def _mk(t):
+    return make_case(*t)
+
+
+def make_cases(todo):
+    """Real runs in a fork pool (libcst needs ~0.25 s per application, nearly all of it visitor set-up)."""
+    import multiprocessing
+    if len(todo) < 4:
+        return [_mk(t) for t in todo]
+    with multiprocessing.get_context("fork").Pool(max(2, min(12, common.NCPU - 2))) as pool:
+        return pool.map(_mk, todo, chunksize=4)
 
 
 def make_case(stub, src, ow, conf, meta):
@@ -135,18 +150,27 @@ def classify(c, flags):
         res.append(("kf_star_param", f"{tag}: a stub annotation for *args/**kwargs is absent from the result"))
     if flags & 2:
         res.append(("kf_dotted_name", f"{tag}: a dotted stub annotation was rewritten to its last component"))
-    rest = flags & (4 | 8 | 16 | 32 | 64)
-    if rest:
+    if flags & 64:
+        # class: confinement on and overwrite on (the second run re-adds, at module level, imports that the first
+        # run confined under `if TYPE_CHECKING:`)
+        fid = "kf_confine_reimports" if (c["confine"] and c["overwrite"]) else None
+        res.append((fid, f"{tag}: applying the same stub to the output changed it again"))
+    if flags & 8:
         fid = None
-        if c["confine"] and c["out"] is not None and not (rest & ~(8 | 64)):
+        if c["confine"] and c["out"] is not None:
             try:
-                lost = [i for i in top_items(c["source"]) if i not in all_items(c["out"])]
+                lost = [i for i in all_items(c["source"]) if i not in all_items(c["out"])]
             except SyntaxError:
                 lost = []
             if lost:
                 fid = "kf_confine_drops_source_import"
+                tag += f" lost={lost[:2]}"
+        res.append((fid, f"{tag}: erase(result) differs from erase(source): something other than annotations/imports/"
+                         f"generated classes changed"))
+    rest = flags & (4 | 16 | 32)
+    if rest:
         names = [n for b, n in FLAG_NAMES if rest & b]
-        res.append((fid, f"{tag}: property predicate(s) false on the real output: {names}"))
+        res.append((None, f"{tag}: property predicate(s) false on the real output: {names}"))
     return res
 
 
@@ -161,14 +185,14 @@ def run(ctx):
         f.write(apply_gen.SHAPES_SRC)
     shapes_obj = apply_gen.load(ctx.work, shapes)
 
-    cases = []
+    todo = []
     dist = {"modules": 0, "stub_subsets": 0, "handler_error": 0, "stub_unparseable": 0}
     for name, stub, src in DIRECTED:
         for ow in (False, True):
             for conf in (False, True):
-                cases.append(make_case(stub, src, ow, conf, f"directed:{name}"))
+                todo.append((stub, src, ow, conf, f"directed:{name}"))
 
-    n_mod = 9 if quick else 90
+    n_mod = 6 if quick else 80
     for mi in range(n_mod):
         m = apply_gen.Mod(rnd, f"{tag}_m{mi}", shapes, mi)
         src = m.text()
@@ -190,7 +214,7 @@ def run(ctx):
             tseed = rnd.randrange(1 << 30)
             combos = [(ow, k, conf) for ow in (False, True) for k in (0, 3) for conf in (False, True)]
             if si > 0:
-                combos = rnd.sample(combos, 3 if quick else 5)
+                combos = rnd.sample(combos, 2 if quick else 5)
             for ow, k, conf in combos:
                 pool = apply_gen.type_pool(mod_obj, shapes_obj, k)
                 traces = apply_gen.traces_for(random.Random(tseed), fobjs, pool, chosen)
@@ -199,14 +223,20 @@ def run(ctx):
                 if m.name not in stubs:
                     continue
                 stub = stubs[m.name].render()
-                cases.append(make_case(stub, src, ow, conf, f"{m.name}/subset{si}/k{k}"))
+                todo.append((stub, src, ow, conf, f"{m.name}/subset{si}/k{k}"))
         sys.modules.pop(m.name, None)
     sys.modules.pop(shapes, None)
     if ctx.work in sys.path:
         sys.path.remove(ctx.work)
 
+    import time
+    t0 = time.time()
+    cases = make_cases(todo)
+    dist["t_real_runs_s"] = round(time.time() - t0, 1)
+    t0 = time.time()
     outs = common.run_coq_shards(ctx.work, "c15", HEADER, [c["term"] for c in cases], "acase",
-                                 "bad report 0 cases", shard_size=60)
+                                 "bad report 0 cases", shard_size=25)
+    dist["t_coq_s"] = round(time.time() - t0, 1)
     rep = dict(common.parse_bad(outs))
     failures, mismatches = [], []
     per_finding = {}
